@@ -1929,6 +1929,13 @@ func c04VisitedProtocol(ctx *Ctx, r *Report, g *callGraph) {
 				if !ok || !endsInExit(guard.Body) || guard.Else != nil {
 					return true
 				}
+				// an exit written in a function literal leaves that literal (a template helper, a callback), not the
+				// function of the recursive component: it guards no descent of that function
+				for cur := parents[ast.Node(guard)]; cur != nil; cur = parents[cur] {
+					if _, inLiteral := cur.(*ast.FuncLit); inLiteral {
+						return true
+					}
+				}
 				var container any
 				var containerExpr ast.Expr
 				probe := func(e ast.Node) {
